@@ -1,7 +1,20 @@
 // @unit c17_has_impl property=C17 attach=typify-impl/src/type_entry.rs
-// @h c17_has_impl_scalars tier=both
-// @h c17_has_impl_integer_nonzero tier=both
-// @h c17_has_impl_containers tier=both
+// @h c17_has_impl_boolean tier=both
+// @h c17_has_impl_u8 tier=thorough
+// @h c17_has_impl_i64 tier=both
+// @h c17_has_impl_f32 tier=thorough
+// @h c17_has_impl_f64 tier=both
+// @h c17_has_impl_string tier=both
+// @h c17_has_impl_unit tier=both
+// @h c17_has_impl_json_value tier=both
+// @h c17_has_impl_nonzero_u8 tier=thorough
+// @h c17_has_impl_nonzero_u16 tier=thorough
+// @h c17_has_impl_nonzero_u32 tier=thorough
+// @h c17_has_impl_nonzero_u64 tier=both
+// @h c17_has_impl_option tier=both
+// @h c17_has_impl_vec tier=thorough
+// @h c17_has_impl_map tier=both
+// @h c17_has_impl_set tier=thorough
 // @h c17_has_impl_native tier=both
 // @h c17_has_impl_struct_default tier=both
 // @h c17_has_impl_enum_000 tier=both
@@ -58,85 +71,49 @@ macro_rules! stubs {
     };
 }
 
-stubs! {
-    fn c17_has_impl_scalars() {
-        let ts = empty_type_space();
-        let which: u8 = kani::any();
-        // (entry, implements FromStr+Display, implements Default)
-        let (entry, conv, dflt): (TypeEntry, bool, bool) = match which {
-            0 => (TypeEntryDetails::Boolean.into(), true, true),
-            1 => (TypeEntryDetails::Integer("u8".to_string()).into(), true, true),
-            2 => (TypeEntryDetails::Integer("i64".to_string()).into(), true, true),
-            3 => (TypeEntryDetails::Float("f32".to_string()).into(), true, true),
-            4 => (TypeEntryDetails::Float("f64".to_string()).into(), true, true),
-            5 => (TypeEntryDetails::String.into(), true, true),
-            6 => (TypeEntryDetails::Unit.into(), false, true),
-            _ => (TypeEntryDetails::JsonValue.into(), true, true),
+/// conv: the Rust type implements FromStr and Display; dflt: it implements Default
+fn check_builtin(entry: TypeEntry, conv: bool, dflt: bool) {
+    let ts = empty_type_space();
+    let x = any_impl();
+    let has = entry.has_impl(&ts, x.clone());
+    if has {
+        let fact = match x {
+            TypeSpaceImpl::FromStr | TypeSpaceImpl::Display => conv,
+            TypeSpaceImpl::Default => dflt,
         };
-        let x = any_impl();
-        let has = entry.has_impl(&ts, x.clone());
-        if has {
-            let fact = match x {
-                TypeSpaceImpl::FromStr | TypeSpaceImpl::Display => conv,
-                TypeSpaceImpl::Default => dflt,
-            };
-            kani::assert(fact, "[C17/P1] has_impl claims a trait the built-in type does not implement");
-        }
-        kani::cover!(has, "[must] some impl is claimed");
-        core::mem::forget(entry);
-        core::mem::forget(ts);
+        kani::assert(fact, "[C17/P1] has_impl claims a trait the built-in type does not implement");
     }
+    kani::cover!(has || !(conv || dflt), "[must] some impl is claimed");
+    core::mem::forget(entry);
+    core::mem::forget(ts);
 }
 
-stubs! {
-    fn c17_has_impl_integer_nonzero() {
-        let ts = empty_type_space();
-        let which: u8 = kani::any();
-        let entry: TypeEntry = match which {
-            0 => TypeEntryDetails::Integer("::std::num::NonZeroU8".to_string()).into(),
-            1 => TypeEntryDetails::Integer("::std::num::NonZeroU16".to_string()).into(),
-            2 => TypeEntryDetails::Integer("::std::num::NonZeroU32".to_string()).into(),
-            _ => TypeEntryDetails::Integer("::std::num::NonZeroU64".to_string()).into(),
-        };
-        let x = any_impl();
-        let has = entry.has_impl(&ts, x.clone());
-        if has {
-            kani::assert(
-                !matches!(x, TypeSpaceImpl::Default),
-                "[C17/P1] has_impl claims Default for a NonZero integer type",
-            );
+macro_rules! builtin {
+    ($name:ident, $entry:expr, $conv:expr, $dflt:expr) => {
+        stubs! {
+            fn $name() {
+                check_builtin($entry, $conv, $dflt)
+            }
         }
-        kani::cover!(has, "[must] some impl is claimed");
-        core::mem::forget(entry);
-        core::mem::forget(ts);
-    }
+    };
 }
 
-stubs! {
-    fn c17_has_impl_containers() {
-        let ts = empty_type_space();
-        let which: u8 = kani::any();
-        let a = TypeId(kani::any());
-        let b = TypeId(kani::any());
-        let entry: TypeEntry = match which {
-            0 => TypeEntryDetails::Option(a).into(),
-            1 => TypeEntryDetails::Vec(a).into(),
-            2 => TypeEntryDetails::Map(a, b).into(),
-            _ => TypeEntryDetails::Set(a).into(),
-        };
-        let x = any_impl();
-        let has = entry.has_impl(&ts, x.clone());
-        if has {
-            kani::assert(
-                matches!(x, TypeSpaceImpl::Default),
-                "[C17/P1] has_impl claims FromStr/Display for Option/Vec/Map/Set",
-            );
-        }
-        kani::cover!(has, "[must] Default is claimed");
-        core::mem::forget(entry);
-        core::mem::forget(ts);
-    }
-}
+builtin!(c17_has_impl_boolean, TypeEntryDetails::Boolean.into(), true, true);
+builtin!(c17_has_impl_u8, TypeEntryDetails::Integer("u8".to_string()).into(), true, true);
+builtin!(c17_has_impl_i64, TypeEntryDetails::Integer("i64".to_string()).into(), true, true);
+builtin!(c17_has_impl_f32, TypeEntryDetails::Float("f32".to_string()).into(), true, true);
+builtin!(c17_has_impl_f64, TypeEntryDetails::Float("f64".to_string()).into(), true, true);
+builtin!(c17_has_impl_string, TypeEntryDetails::String.into(), true, true);
+builtin!(c17_has_impl_unit, TypeEntryDetails::Unit.into(), false, true);
+builtin!(c17_has_impl_json_value, TypeEntryDetails::JsonValue.into(), true, true);
+builtin!(c17_has_impl_nonzero_u8, TypeEntryDetails::Integer("::std::num::NonZeroU8".to_string()).into(), true, false);
+builtin!(c17_has_impl_nonzero_u16, TypeEntryDetails::Integer("::std::num::NonZeroU16".to_string()).into(), true, false);
+builtin!(c17_has_impl_nonzero_u32, TypeEntryDetails::Integer("::std::num::NonZeroU32".to_string()).into(), true, false);
+builtin!(c17_has_impl_nonzero_u64, TypeEntryDetails::Integer("::std::num::NonZeroU64".to_string()).into(), true, false);
+builtin!(c17_has_impl_option, TypeEntryDetails::Option(TypeId(kani::any())).into(), false, true);
+builtin!(c17_has_impl_vec, TypeEntryDetails::Vec(TypeId(kani::any())).into(), false, true);
+builtin!(c17_has_impl_map, TypeEntryDetails::Map(TypeId(kani::any()), TypeId(kani::any())).into(), false, true);
+builtin!(c17_has_impl_set, TypeEntryDetails::Set(TypeId(kani::any())).into(), false, true);
 
 stubs! {
     fn c17_has_impl_native() {
